@@ -88,6 +88,11 @@ CLAIMED = {
    "DESIGN.md §4 C09",
    "Trusted: table of keep-alive links (17 fields, each with a reason), the list of Close/Delete entry-point names, three named exemptions for keepers outside the function, VTA call graph soundness for wazero's own functions.",
    "static: who-may-call, must-pass-through on SSA CFG with summaries, no-copy typing rule, close-path reachability x who-writes, address-escape/keeper analysis on SSA"),
+ "C20": ("other",
+   "Static decision of structural necessary conditions for every program: before-trampoline emitted at function entry under the listener flag; every emitted jump whose target is not freshly allocated is ReturnBlock-checked with the after-trampoline call on that branch; every emitted Return is covered (tail-call fallbacks listed as implementation-defined); Go-side brackets ordered Before < call < After and unconditional (4 compiler arms, 2 trampoline arms, 2 interpreter wrappers); interpreter body runner reached only through the listener-consulting dispatcher; both recover paths notify Abort for every collected frame after the error is built and no frame walk is cut at a constant depth (genuine defect found and fixed); listener tables not written on close paths; the stack iterator re-walks the stack on every reset. The native return-address walk, nesting under unwinding and cross-engine stream equality are not decided.",
+   "DESIGN.md §4 C20",
+   "Trusted: trampoline helper names callListenerBefore/After as anchors of the emission, AllocateBasicBlock results as the only never-return-block targets, table of listener fields.",
+   "static: SSA value-origin classification of jump targets, dominance-based must-precede, statement-order typestate on arms, who-calls, close-path reachability x who-writes"),
 }
 
 NOT_APPLICABLE = {
